@@ -16,11 +16,18 @@
 #ifndef N
 #define N 3
 #endif
+#ifndef QUOTED
+#define QUOTED 1
+#endif
 #define HOST "h"
 #define HL 1
 #define AL (N + 1 + HL)            /* address length */
 #define QL (2 * N + 2 + 1 + HL)    /* longest quoted form */
-#define NTOK (N + 5)               /* To : <local tokens> @ h */
+#if QUOTED
+#define NTOK 5                     /* To : "..." @ h */
+#else
+#define NTOK (N + 4)               /* To : <atoms and dots> @ h */
+#endif
 
 unsigned char lp[N + 1];
 
@@ -36,32 +43,40 @@ void sym_inputs(void)
 void *vf_malloc(size_t n) { (void) n; CHECK(0, "no allocation: token arrays are pre-sized (growth inside the bound)"); PATH_END(); return 0; }
 void *vf_realloc(void *p, size_t n) { (void) p; (void) n; CHECK(0, "no reallocation: token arrays are pre-sized (growth inside the bound)"); PATH_END(); return 0; }
 
-static struct token822 b_in[NTOK], b_out[NTOK + 2], b_addr[NTOK];
-static token822_alloc ta_in = { b_in, 0, NTOK }, ta_out = { b_out, 0, NTOK + 2 }, ta_addr = { b_addr, 0, NTOK };
-static stralloc parsebuf, got;
+static struct token822 b_in[NTOK], b_out[NTOK + 1], b_addr[NTOK];
+static token822_alloc ta_in = { b_in, 0, NTOK }, ta_out = { b_out, 0, NTOK + 1 }, ta_addr = { b_addr, 0, NTOK };
+static char b_parse[QL + 2], b_got[QL + 2], b_q[QL + 2];          /* the harness's own strallocs are pre-sized too */
+static stralloc parsebuf = { b_parse, 0, sizeof b_parse }, got = { b_got, 0, sizeof b_got };
 static unsigned int n_addr;
 
-/* The callback is expanded at every place where token822_addrlist() may complete an
- * address; it only takes a snapshot of the first address (cheap); the unquoting that
- * qmail-inject's rwappend() does inside its callback is done on the snapshot afterwards. */
-static struct token822 snap[NTOK]; static unsigned int snap_len;
+/* gotaddr() (static in token822.c: "an address is complete: hand it to the callback,
+ * move its tokens to the output list") is CUT: token822_addrlist() expands it at 31
+ * places.  Contract (proved on the real function by obligation gotaddr_contract):
+ * callback(taaddr) is called once; if it returns 1 the tokens of taaddr are appended to
+ * taout in order, taaddr is emptied and 1 is returned.  The stub notes the first
+ * address; its tokens stay in taaddr's array, which token822_addrlist() only writes
+ * again when it collects a further address (then n_addr > 1 and the check fails). */
+static unsigned int first_len;
+static token822_alloc *first_ta;
 
-static int collect(token822_alloc *addr)
+int gotaddr(token822_alloc *taout, token822_alloc *taaddr, int (*callback)())
 {
-  unsigned int k;
-  if (n_addr++ == 0) {
-    CHECK(addr->len <= NTOK, "address fits the token buffer (harness sizing)");
-    snap_len = addr->len;
-    for (k = 0; k < NTOK; ++k) snap[k] = addr->t[k];
-  }
+  (void) callback;
+  if (n_addr++ == 0) { first_len = taaddr->len; first_ta = taaddr; }
+  CHECK(taout->len + taaddr->len <= taout->a, "output token list fits (harness sizing)");
+  ASSUME(taout->len + taaddr->len <= taout->a);
+  taout->len += taaddr->len;          /* contents of the output list are not examined here */
+  taaddr->len = 0;
   return 1;
 }
+
+static int collect(token822_alloc *addr) { (void) addr; CHECK(0, "callback is reached only through gotaddr"); return 1; }
 
 void vmain(void)
 {
   static char a[AL + 1];
   static char hbuf[3 + QL + 2];
-  static stralloc q, hdr;
+  static stralloc q = { b_q, 0, sizeof b_q }, hdr;
   static const char host[] = HOST;
   unsigned int i, n = 0;
   int quoted = 0, bs = 0, cr = 0, hi = 0, sp = 0;
@@ -84,17 +99,37 @@ void vmain(void)
   ASSUME(q.len <= QL);
   if (q.len && q.s[0] == '"') quoted = 1;
 
+  /* Case split, one query each (together they cover every input): QUOTED=1 follows the
+   * runs in which quote2 produced a quoted-string, QUOTED=0 the others.  In each case
+   * the bytes whose value the run has just established are written into the header as
+   * constants, so that symbolic execution can discard parser branches; the per-loop
+   * unwinding bounds of the plan differ between the two cases and are each proved
+   * sufficient by their unwinding assertions. */
   hbuf[n++] = 'T'; hbuf[n++] = 'o'; hbuf[n++] = ':';
-  for (i = 0; i < QL; ++i) { if (i >= q.len) break; hbuf[n++] = q.s[i]; }
-  hbuf[n++] = '\n';
+#if QUOTED
+  if (!quoted) return;
+  hbuf[n++] = '"';
+  for (i = 1; i < QL; ++i) { if (i >= q.len) break; hbuf[n++] = q.s[i]; }
+#else
+  if (quoted) return;
+  /* RFC 822: an unquoted local part stands for itself; quote2 "does as little quoting as
+   * possible" - an address that needs none is passed through unchanged */
+  CHECK(q.len == AL, "C17: an address that needs no quoting is left unchanged by quote2 (length)");
+  ASSUME(q.len == AL);
+  for (i = 0; i < AL; ++i) CHECK(q.s[i] == a[i], "C17: an address that needs no quoting is left unchanged by quote2");
+  for (i = 0; i < N; ++i) hbuf[n++] = q.s[i];
+  hbuf[n++] = '@';
+  for (i = 0; i < HL; ++i) hbuf[n++] = host[i];
+#endif
   hdr.s = hbuf; hdr.len = n; hdr.a = sizeof hbuf;
 
   CHECK(token822_parse(&ta_in, &hdr, &parsebuf) == 1, "C17: the quoted address parses as an RFC 822 header field");
   CHECK(token822_addrlist(&ta_out, &ta_addr, &ta_in, collect) == 1, "C17: ... and as an address list");
   CHECK(n_addr == 1, "C17: exactly one address is found");
-  {
+  CHECK(first_ta == &ta_addr && first_len <= NTOK, "the address was collected in the address buffer");
+  {                                            /* what qmail-inject's rwappend() does with an address */
     token822_alloc one;
-    one.t = snap; one.len = snap_len <= NTOK ? snap_len : 0; one.a = NTOK;
+    one.t = b_addr; one.len = first_len <= NTOK ? first_len : 0; one.a = NTOK;
     token822_reverse(&one);                    /* addrlist hands the tokens over right-to-left */
     CHECK(token822_unquote(&got, &one) == 1, "token822_unquote succeeds");
   }
